@@ -1,3 +1,8 @@
 import MpirProofs.Lemmas.Base
 import MpirProofs.Lemmas.Kernels
 import MpirProofs.Props.C03
+import MpirProofs.Lemmas.RandLc
+import MpirProofs.Lemmas.RandMt
+import MpirProofs.Lemmas.Rand
+import MpirProofs.Lemmas.RandRr
+import MpirProofs.Props.C19
